@@ -31,6 +31,7 @@ import (
 	"fmt"
 	nurl "net/url"
 	"strconv"
+	"strings"
 
 	"github.com/markusmobius/go-domdistiller/internal/stringutil"
 )
@@ -119,7 +120,7 @@ func (pp *QueryParamPagePattern) IsValidFor(docURL *nurl.URL) bool {
 	docURLPath := rxTrailingSlashHTML.ReplaceAllString(docURL.Path, "")
 
 	return pp.url.Scheme == docURL.Scheme &&
-		pp.url.Host == docURL.Host &&
+		strings.EqualFold(pp.url.Host, docURL.Host) &&
 		urlPath == docURLPath
 }
 
@@ -139,7 +140,7 @@ func (pp *QueryParamPagePattern) IsPagingURL(url string) bool {
 	patternURLPath := rxTrailingSlashHTML.ReplaceAllString(pp.url.Path, "")
 	parsedURLPath := rxTrailingSlashHTML.ReplaceAllString(parsedURL.Path, "")
 	if pp.url.Scheme != parsedURL.Scheme ||
-		pp.url.Host != parsedURL.Host ||
+		!strings.EqualFold(pp.url.Host, parsedURL.Host) ||
 		patternURLPath != parsedURLPath {
 		return false
 	}
